@@ -144,6 +144,25 @@ inductive Tree where
   /-- the children run inside `Frame::current(ctxt)` carried to thread `t` (`in_fn` on another actor, or an
       `in_future` task polled there) -/
   | group (t : Nat) (children : List Tree)
+  /-- `panic!()` at this position of the enclosing body -/
+  | panic
+  /-- `catch_unwind(|| children)` -/
+  | catch_ (children : List Tree)
+
+mutual
+/-- Does running this node raise a panic that leaves it? Static: nothing in a tree depends on data. A panic in
+    a span body unwinds through the span (the guard completes it inside the frame, the frame is exited by the
+    `EnterGuard` drop) and through carried frames, up to the nearest `catch_`. -/
+def Tree.panics : Tree → Bool
+  | .span _ _ _ _ _ children => panicsL children
+  | .group _ children => panicsL children
+  | .panic => true
+  | .catch_ _ => false
+  | _ => false
+def panicsL : List Tree → Bool
+  | [] => false
+  | x :: xs => x.panics || panicsL xs
+end
 
 /-- the ctxt props a span pushes: `id`, the user's, then the ids (later pairs overwrite) -/
 def spanProps (id : Nat) (user : List (String × IdVal)) (child : SpanCtxt) : List (String × IdVal) :=
@@ -171,12 +190,19 @@ def runT (t c : Nat) : Tree → St IdVal → Nat → List Rec × St IdVal × Nat
     let s2 := step s1 (.enter t' c n)
     let (rs, s3, n3) := runL t' c children s2 (n + 1)
     (rs, step s3 (.exit t' c n), n3)
+  | .panic, s, n => ([], s, n)
+  | .catch_ children, s, n => runL t c children s n
+/-- a body: the elements in order, up to and including the first one that panics. The enclosing span still
+    runs its completion and its `exit` (drop order during unwinding: the span guard inside the closure first,
+    then `Frame::call`'s / `FrameFuture::poll`'s `EnterGuard`). -/
 def runL (t c : Nat) : List Tree → St IdVal → Nat → List Rec × St IdVal × Nat
   | [], s, n => ([], s, n)
   | x :: xs, s, n =>
     let (r1, s1, n1) := runT t c x s n
-    let (r2, s2, n2) := runL t c xs s1 n1
-    (r1 ++ r2, s2, n2)
+    if x.panics then (r1, s1, n1)
+    else
+      let (r2, s2, n2) := runL t c xs s1 n1
+      (r1 ++ r2, s2, n2)
 end
 
 mutual
@@ -191,9 +217,11 @@ def spec (amb : List (String × IdVal)) : Tree → List Rec
       specL amb' children ++ [recOf "s" (pullNum amb' "id") amb']
     else specL amb children
   | .group _ children => specL amb children
+  | .panic => []
+  | .catch_ children => specL amb children
 def specL (amb : List (String × IdVal)) : List Tree → List Rec
   | [] => []
-  | x :: xs => spec amb x ++ specL amb xs
+  | x :: xs => spec amb x ++ (if x.panics then [] else specL amb xs)
 end
 
 mutual
@@ -210,9 +238,11 @@ def ref (tr sp pa : Option Nat) : Tree → List Rec
       refL tr' sp' pa' children ++ [⟨"s", some id, tr', pa', sp'⟩]
     else refL tr sp pa children
   | .group _ children => refL tr sp pa children
+  | .panic => []
+  | .catch_ children => refL tr sp pa children
 def refL (tr sp pa : Option Nat) : List Tree → List Rec
   | [] => []
-  | x :: xs => ref tr sp pa x ++ refL tr sp pa xs
+  | x :: xs => ref tr sp pa x ++ (if x.panics then [] else refL tr sp pa xs)
 end
 
 end EmitModel.Span
